@@ -1846,6 +1846,12 @@ func tornRace(m *meta, rng *rand.Rand, round int) {
 	}
 	for i := 0; i < rounds; i++ {
 		c.Set(7, mkBig(uint64(1000+i), -1), kioshun.NoExpiration)
+		switch i % 6 {
+		case 2:
+			c.Delete(7) // the item a reader may be copying from leaves the table ...
+		case 4:
+			c.Set(2000+i%500, mkBig(uint64(5000000+i), -1), kioshun.NoExpiration) // ... or is displaced by cold traffic
+		}
 	}
 	close(stop)
 	wg.Wait()
